@@ -864,10 +864,46 @@ fn gen_c07(seed: u64) -> Plan {
             b.plan.peers[p].identity = 700 + p as u64;
         }
     }
-    // peers connect at very different times
-    for p in 0..np {
-        let at = if b.rng.chance(1, 2) { b.rng.range(0, 3_000) } else { b.rng.range(3_000, 150_000) };
-        add(&mut b.plan, at, Action::Connect { peer: p });
+    // In some plans the deviating peers collude (one made-up vector), come first and may even be
+    // a quorum; the peers reporting the true check points join later, and the process dies
+    // between writing check points and writing the final index.
+    let collude = np >= 3 && b.rng.chance(1, 4);
+    let mut crash_site: Option<String> = None;
+    if collude {
+        let salt = b.rng.next_u64() | 1;
+        let from = b.rng.range(1, b.plan.initial_blocks);
+        let n_liars = b.rng.range(1, (np as u64 + 1) / 2) as usize;
+        for p in 0..np {
+            if p < n_liars {
+                b.plan.peers[p].lie_from = from;
+                b.plan.peers[p].lie_salt = salt;
+                b.plan.peers[p].identity = 700 + p as u64;
+            } else {
+                b.plan.peers[p].lie_from = 0;
+                b.plan.peers[p].lie_salt = 0;
+            }
+        }
+        b.plan.knobs.max_outbound = b.rng.range(1, (2 * n_liars as u64).max(1)) as u32;
+        if b.rng.chance(2, 3) {
+            crash_site = Some(format!(
+                "crash_site={}:{}",
+                *b.rng.pick(&["put_max_check_point_index", "batch_commit", "put_max_check_point_index"]),
+                b.rng.range(1, 3)
+            ));
+        }
+        for p in 0..np {
+            let at = if p < n_liars { b.rng.range(0, 3_000) } else { b.rng.range(40_000, 150_000) };
+            add(&mut b.plan, at, Action::Connect { peer: p });
+            if p < n_liars && b.rng.chance(1, 2) {
+                add(&mut b.plan, b.rng.range(30_000, 60_000), Action::Disconnect { peer: p });
+            }
+        }
+    } else {
+        // peers connect at very different times
+        for p in 0..np {
+            let at = if b.rng.chance(1, 2) { b.rng.range(0, 3_000) } else { b.rng.range(3_000, 150_000) };
+            add(&mut b.plan, at, Action::Connect { peer: p });
+        }
     }
     let until = b.rng.range(60_000, 250_000);
     growth(&mut b, until);
@@ -897,6 +933,13 @@ fn gen_c07(seed: u64) -> Plan {
         add(&mut b.plan, b.rng.range(0, 20_000), Action::User(UserOp::SetScripts { cmd: SetCmd::All, scripts }));
     }
     b.plan.flags = vec!["byz".into(), "checkpoints".into()];
+    if let Some(f) = crash_site {
+        b.plan.flags.push(f);
+    } else if b.rng.chance(1, 3) {
+        // the process dies before one of its storage writes (e.g. between the check points and
+        // the final index) and restarts from the store
+        b.plan.flags.push(format!("crash_at={}", b.rng.range(3, 90)));
+    }
     finish(b, until, 120_000)
 }
 
